@@ -117,6 +117,8 @@ TEMPLATES = [
     T('YF yy/m/d', 'date', lambda d, n, s: '%02d/%02d/%02d' % (d.year % 100, d.month, d.day), flags={'yearfirst': True, 'dayfirst': False}, yy=True, group='numeric-yy'),
     T('YF yy-Mon-d', 'date', lambda d, n, s: '%02d-%s-%02d' % (d.year % 100, MON[d.month - 1], d.day), flags={'yearfirst': True}, yy=True, group='numeric-yy'),
     T('yy>31 Mon d hm', 'hm', lambda d, n, s: '%02d %s %02d %02d:%02d' % (d.year % 100, MON[d.month - 1], d.day, d.hour, d.minute), yy=True, group='numeric-yy'),
+    T('Mon D yy', 'date', lambda d, n, s: '%s %02d %02d' % (MON[d.month - 1], d.day, d.year % 100), yy=True, group='numeric-yy'),
+    T('Mon-D-yy hm', 'hm', lambda d, n, s: '%s-%02d-%02d %02d:%02d' % (MON[d.month - 1], d.day, d.year % 100, d.hour, d.minute), yy=True, group='numeric-yy'),
     T('D Mon yy', 'date', lambda d, n, s: '%02d %s %02d' % (d.day, MON[d.month - 1], d.year % 100), yy=True, group='numeric-yy'),
 ]
 BY_NAME = {t.name: t for t in TEMPLATES}
